@@ -10,6 +10,7 @@ import (
 
 	"github.com/buildbarn/bb-remote-execution/pkg/builder"
 	"github.com/buildbarn/bb-remote-execution/pkg/cas"
+	"github.com/buildbarn/bb-storage/pkg/digest"
 	"github.com/buildbarn/bb-storage/pkg/eviction"
 	"github.com/buildbarn/bb-storage/pkg/filesystem"
 	"github.com/buildbarn/bb-storage/pkg/filesystem/path"
@@ -24,14 +25,19 @@ type naiveRig struct {
 	cacheDir filesystem.DirectoryCloser
 	fetcher  cas.FileFetcher
 	n        int
+	maxFiles int
+	maxSize  int64
+	keyIDs   map[string]int    // cache file name -> id used towards the model
+	keyBlob  map[string]string // cache file name -> CAS key of its contents
+	dirFault map[string]bool   // cache entries currently replaced by a directory
 }
 
-func newNaiveRig(r *rig, hardlink bool, maxFiles int) (*naiveRig, error) {
+func newNaiveRig(r *rig, hardlink bool, maxFiles int, maxSize int64) (*naiveRig, error) {
 	base, err := os.MkdirTemp("", "c17-naive-")
 	if err != nil {
 		return nil, err
 	}
-	nr := &naiveRig{base: base, fetcher: cas.NewBlobAccessFileFetcher(r.cas)}
+	nr := &naiveRig{base: base, fetcher: cas.NewBlobAccessFileFetcher(r.cas), keyIDs: map[string]int{}, keyBlob: map[string]string{}, dirFault: map[string]bool{}}
 	if hardlink {
 		if err := os.Mkdir(filepath.Join(base, "cache"), 0o777); err != nil {
 			return nil, err
@@ -40,7 +46,8 @@ func newNaiveRig(r *rig, hardlink bool, maxFiles int) (*naiveRig, error) {
 		if err != nil {
 			return nil, err
 		}
-		nr.fetcher = cas.NewHardlinkingFileFetcher(nr.fetcher, nr.cacheDir, maxFiles, 1<<20, eviction.NewLRUSet[string]())
+		nr.maxFiles, nr.maxSize = maxFiles, maxSize
+		nr.fetcher = cas.NewHardlinkingFileFetcher(nr.fetcher, nr.cacheDir, maxFiles, maxSize, eviction.NewLRUSet[string]())
 	}
 	return nr, nil
 }
@@ -152,9 +159,20 @@ func (nr *naiveRig) merge(r *rig, hash string, size int64) (out, complaint strin
 	bd := builder.NewNaiveBuildDirectory(ld, r.fetcher, nr.fetcher, semaphore.NewWeighted(4), r.cas)
 	merr := bd.MergeDirectoryContents(context.Background(), r.logger, d, nil)
 	bd.Close()
+	avail := r.cas.blobs
+	if len(r.cas.missing) > 0 {
+		avail = map[string][]byte{}
+		for k, v := range r.cas.blobs {
+			if !r.cas.missing[k] {
+				avail[k] = v
+			}
+		}
+	}
+	// the requested tree is decoded from the storage as the client uploaded it
 	want, loadable := refTree(refDecode(r.cas.blobs, r.hashLen, hash, size, 0), r.cas.blobs)
+	_, loadableNow := refTree(refDecode(avail, r.hashLen, hash, size, 0), avail)
 	if merr != nil {
-		if loadable {
+		if loadableNow && len(nr.dirFault) == 0 {
 			return "err", fmt.Sprintf("naive merge of a well-formed, complete tree failed: %v", merr)
 		}
 		return "err", ""
@@ -162,6 +180,7 @@ func (nr *naiveRig) merge(r *rig, hash string, size int64) (out, complaint strin
 	if !loadable {
 		return "ok", "naive merge of a tree with a malformed or absent directory/file succeeded"
 	}
+	_ = loadableNow // files lost by the storage may legitimately come from the hard-link cache
 	got, err := diskTree(dir)
 	if err != nil {
 		return "ok", "cannot read back the materialised tree: " + err.Error()
@@ -177,4 +196,117 @@ func clip(s string) string {
 		return s[:600] + "..."
 	}
 	return s
+}
+
+// cacheName is the name the hard-linking fetcher uses in its cache directory.
+func (nr *naiveRig) cacheName(r *rig, hash string, size int64, exec bool) (string, bool) {
+	d, err := r.digestOf(hash, size)
+	if err != nil {
+		return "", false
+	}
+	k := d.GetKey(digest.KeyWithoutInstance)
+	if exec {
+		k += "+x"
+	} else {
+		k += "-x"
+	}
+	if _, ok := nr.keyIDs[k]; !ok {
+		nr.keyIDs[k] = len(nr.keyIDs) + 1
+		nr.keyBlob[k] = casKeyOf(hash, size)
+	}
+	return k, true
+}
+
+// cacheFault: what a cleaner or an administrator does to the cache directory.
+func (nr *naiveRig) cacheFault(name string, mkdir bool) {
+	p := filepath.Join(nr.base, "cache", name)
+	os.RemoveAll(p)
+	delete(nr.dirFault, name)
+	if mkdir {
+		os.Mkdir(p, 0o777)
+		nr.dirFault[name] = true
+	}
+}
+
+// cacheListing renders the cache directory like the model renders `disk`, and
+// checks the limits on what is really there.
+func (nr *naiveRig) cacheListing(r *rig) (listing string, complaint string) {
+	entries, err := os.ReadDir(filepath.Join(nr.base, "cache"))
+	if err != nil {
+		return "unreadable", ""
+	}
+	type item struct {
+		id int
+		s  string
+	}
+	var items []item
+	files, bytes := 0, int64(0)
+	for _, e := range entries {
+		id, known := nr.keyIDs[e.Name()]
+		if !known {
+			items = append(items, item{1 << 30, "?" + e.Name()})
+			continue
+		}
+		if e.IsDir() {
+			items = append(items, item{id, fmt.Sprintf("%d:d", id)})
+			continue
+		}
+		b, _ := os.ReadFile(filepath.Join(nr.base, "cache", e.Name()))
+		files++
+		bytes += int64(len(b))
+		if string(b) == string(r.cas.blobs[nr.keyBlob[e.Name()]]) {
+			items = append(items, item{id, fmt.Sprintf("%d:f%d", id, id)})
+		} else {
+			items = append(items, item{id, fmt.Sprintf("%d:f-other-contents", id)})
+			complaint = "the cache file " + e.Name() + " does not have the contents of its digest"
+		}
+	}
+	sort.Slice(items, func(i, j int) bool { return items[i].id < items[j].id })
+	parts := make([]string, len(items))
+	for i, it := range items {
+		parts[i] = it.s
+	}
+	limit := nr.maxFiles
+	if limit < 1 {
+		limit = 1
+	}
+	if complaint == "" && (files > limit || (bytes > nr.maxSize && files > 1)) {
+		complaint = fmt.Sprintf("the hard-link cache holds %d files / %d bytes, its limits are %d files / %d bytes", files, bytes, nr.maxFiles, nr.maxSize)
+	}
+	return strings.Join(parts, ","), complaint
+}
+
+// getFile calls the real hard-linking fetcher for one file into a fresh directory.
+func (nr *naiveRig) getFile(r *rig, hash string, size int64, exec bool) (out string, complaint string) {
+	d, err := r.digestOf(hash, size)
+	if err != nil {
+		return "bad-op", ""
+	}
+	nr.n++
+	dir := filepath.Join(nr.base, fmt.Sprintf("target%d", nr.n))
+	if err := os.Mkdir(dir, 0o777); err != nil {
+		return "bad-op", ""
+	}
+	defer os.RemoveAll(dir)
+	ld, err := filesystem.NewLocalDirectory(path.LocalFormat.NewParser(dir))
+	if err != nil {
+		return "bad-op", ""
+	}
+	defer ld.Close()
+	gerr := nr.fetcher.GetFile(context.Background(), d, ld, path.MustNewComponent("f"), exec)
+	if gerr != nil {
+		return "err", ""
+	}
+	info, serr := os.Lstat(filepath.Join(dir, "f"))
+	if serr != nil {
+		return "ok-but-missing", "GetFile returned nil but did not create the file"
+	}
+	b, _ := os.ReadFile(filepath.Join(dir, "f"))
+	if !info.Mode().IsRegular() || string(b) != string(r.cas.blobs[casKeyOf(hash, size)]) {
+		return "ok-with-other-contents", "GetFile returned nil but the file does not have the contents of the digest"
+	}
+	if (info.Mode()&0o111 != 0) != exec {
+		return "ok-with-wrong-mode", fmt.Sprintf("GetFile returned nil but the executable bit is wrong (mode %v, requested executable=%v)", info.Mode(), exec)
+	}
+	return "ok", ""
 }
